@@ -16,7 +16,8 @@ CLAIMED = {
  "C04": ("proof", "Lean 4 theorems over the regenerated model: ad_x y = [x,y], [x,y]^ = commutator, antisymmetry, Jacobi for every "
          "algebra; (Ad_X y)^ M(X) = M(X) y^ for every group (all valid X, all y); Ad homomorphism / inverse for SO2, SE2, Rn, SO3*, SE3*; "
          "k×k shapes enforced by the types; Ad_exp(x) = NormedSpace.exp(ad_x) for the SO(3) forms (quaternion, DCM, MRP with shadow switch) on the "
-         "closed-form cells and at zero (Props/C04E via C02). Ad_exp for SE2/SE3/SE23 and the SE23 Ad homomorphism: numeric search only.",
+         "closed-form cells and at zero (Props/C04E via C02); Ad homomorphism / inverse on SE_2(3) (quaternion and MRP form) derived from the conjugation "
+         "law, C01's matrix homomorphism and injectivity of the hat map (Lib/AdConj, Props/C04H). Ad_exp for SE2/SE3/SE23: numeric search only.",
          "DESIGN.md §2 C04", TECH_T),
  "C13": ("proof", "Lean 4 theorems over the control_allocation program regenerated from rdd2.derive_control_allocation(): for ALL demands and "
          "all constants every motor force is in [0,F_max] and omega = sqrt(Fp/Ct) with non-negative radicand; a jointly achievable demand is "
@@ -25,8 +26,11 @@ CLAIMED = {
          "DESIGN.md §2 C13", TECH_T),
  "C18": ("proof", "Lean 4 theorems over the Bezier programs regenerated from cyecca/models/bezier.py: for degrees 1..7 De Casteljau eval equals the "
          "Bernstein polynomial, start/end points, and HasDerivAt facts for every derivative order (all t, inside or outside [0,T]); the cubic and "
-         "septic boundary-value solvers meet every requested condition (T != 0); traj/multirotor outputs are the curve and its successive derivatives.",
-         "DESIGN.md §2 C18", TECH_T),
+         "septic boundary-value solvers meet every requested condition (T != 0); traj/multirotor outputs are the curve and its successive derivatives. "
+         "EVERY degree and derivative order: hand model of Bezier.eval / deriv (Model/Bezier.lean) with De Casteljau = Bernstein, end points and "
+         "deriv(m).eval = m-th iterated derivative proved by induction on the degree (Props/C18G), proved equal to every translated program (degrees 1..7, all orders) "
+         "and tied to the real class by a differential run (degrees 1..12, float / integer / DM / SX / list control points).",
+         "DESIGN.md §2 C18, §8.1", TECH_T + " + hand model for every degree (induction), proved equal to the translated programs and tied to the class by a differential run"),
  "C07": ("proof", "Lean 4 theorems over the regenerated conversion programs: Shepperd matrix->quaternion (all four branches) returns a unit quaternion "
          "with the same matrix for EVERY proper rotation matrix; quaternion<->MRP (either sign, q0=-1 included), MRP/quaternion/Euler->DCM, DCM/Euler->"
          "quaternion, DCM->MRP preserve the rotation and return valid parameters (unit norm, |MRP|<=1, orthonormal det 1); the shadow switch never "
@@ -76,7 +80,9 @@ CLAIMED = {
          "set-point within 2 m of the vehicle (norm saturation lemma), reset puts it on the vehicle; attitude law is exactly zero for q_r = q and "
          "q_r = -q, it IS gain x quaternion-log of q^-1 q_r, and with unit gains applying the commanded rotation reaches the reference "
          "(R(q) R(exp w) = R(q_r), closed-form cells, via C03); position controller and SE_2(3) outer loop: the feedback part of the demanded force "
-         "never exceeds 0.3 m g for ANY input and the height integrator stays within its limit (probe of the real body). Auto-level map, Taylor cells: search only.",
+         "never exceeds 0.3 m g for ANY input and the height integrator stays within its limit (probe of the real body); the log-linear SO(3) law IS "
+         "J_l(e) diag(kp) e with e = quaternion log of q^-1 q_r for every input, with a scalar gain it is k x rotation vector and reaches the reference "
+         "(Props/C15A, C15B). Auto-level map, Taylor cells, unequal gains: search only.",
          "DESIGN.md §2 C15", TECH_T),
  "C14": ("proof", "Lean 4 theorems over the regenerated programs: the Euler(3-2-1)->quaternion helper returns a unit quaternion of the same "
          "rotation for EVERY yaw/pitch/roll (through the Shepperd theorem of C07); the flatness reference mr_ref_traj satisfies Euler's equation "
@@ -93,8 +99,10 @@ CLAIMED = {
          "degree-4 Taylor polynomial on linear/affine systems (order 4, consistency); sqrt_covariance_predict (n = 2) is lower triangular and "
          "satisfies W'W^T + WW'^T = FP + PF^T + Q; sqrt_correct gives Ss Ss^T = HPH^T + R, K S = P H^T, W+W+^T = (I - KH)P and P - W+W+^T >= 0 "
          "(n = m = 1 with CasADi's symbolic QR inlined; n = 3, m = 2 on the QR-abstracted real routine under the contract Q^T Q = 1, Q R = A, from the "
-         "generic theorem Lib/SqrtFilter valid for all dimensions). Other sizes (n <= 7, m <= 3) and the h^5 local error: numeric search only.",
-         "DESIGN.md §2 C10", TECH_T),
+         "generic theorem Lib/SqrtFilter valid for all dimensions); LDL^T for EVERY size n by induction over a hand model of the routine's loops "
+         "(Model/Ldl.lean, Props/C10G: unit lower triangular, L D L^T = P given non-zero pivots), tied to the routine by a differential run (sizes 1..6, "
+         "five scalings, bit-exact). Other sizes of the other routines (n <= 7, m <= 3) and the h^5 local error: numeric search only.",
+         "DESIGN.md §2 C10, §8.1", TECH_T + " + hand model of LDL^T for every size (induction) tied to the routine by a differential run"),
  "C11": ("proof", "Lean 4 theorems over the regenerated estimator programs: a rejected accelerometer / magnetometer correction (error code != 0) "
          "returns ALL six state components and every lower-triangle entry of the covariance factor unchanged (over the reals), the error codes lie "
          "in the documented finite sets, a failed initialisation returns the zero state; the predicted MRP has norm <= 1 and is the same rotation "
